@@ -145,7 +145,7 @@ Definition udfdir_run (ops : list op) : udfdir * Z :=
 Definition udfdir_accepts (st : udfdir) (o : op) : bool := snd (fst (udfdir_step 2048 st o)).
 
 (* the non-parent entries, as (fi, isdir), in list order *)
-Definition udfdir_names (st : udfdir) : list (list Z * bool) :=
+Definition dir_names (st : udfdir) : list (list Z * bool) :=
   map (fun e => (fi_name e, fi_isdir e)) (filter (fun e => negb (fi_isparent e)) (ud_descs st)).
 
 (* ---- layout ---------------------------------------------------------------------------------- *)
